@@ -124,8 +124,9 @@ macro_rules! impl_regression {
 
             fn fit(&self, dataset: &DatasetBase<$records, $targets>) -> Result<Self::Object> {
                 let kernel = self.kernel_params().transform(dataset.records());
-                let target = dataset.as_single_targets();
-                let target = target.as_slice().unwrap();
+                // the targets may be a strided view: copy them instead of demanding a contiguous slice
+                let target = dataset.as_single_targets().to_vec();
+                let target = target.as_slice();
 
                 let ret = match (self.c(), self.nu()) {
                     (Some((c, p)), _) => fit_epsilon(
